@@ -1040,11 +1040,27 @@ fn clone_own_slot(node: &Node, j: usize) {
         }
         violate(View::Abort, &format!("clone_from of a handle to already destroyed object {} returned normally instead of aborting", t));
     }
+    // half of the cases: the stored handle is one that was cloned from the
+    // object's `Rc<MaybeUninit<Node>>` handle before `assume_init` (same
+    // allocation, payload type without drop glue): cloned through that type
+    let via_uninit = (wd.layout_lo.get() >> 39) & 1 == 1;
+    let clone_it = move |h: &Rc<Node>| -> Rc<Node> {
+        if via_uninit {
+            let v: &Rc<std::mem::MaybeUninit<Node>> = unsafe { &*(h as *const Rc<Node> as *const Rc<std::mem::MaybeUninit<Node>>) };
+            let c = Rc::clone(v);
+            unsafe { c.assume_init() }
+        } else {
+            Rc::clone(h)
+        }
+    };
+    if via_uninit {
+        label(lab::CLONE_VIA_UNINIT_TYPE);
+    }
     let c = {
         let s = node.slots.borrow();
         if certain_dead || predicted_dead {
             // the property demands process termination, not an unwinding panic
-            match catch_unwind(AssertUnwindSafe(|| lib(|| Rc::clone(&s[j].h)))) {
+            match catch_unwind(AssertUnwindSafe(|| lib(|| clone_it(&s[j].h)))) {
                 Ok(c) => c,
                 Err(e) => {
                     std::mem::forget(e);
@@ -1056,7 +1072,7 @@ fn clone_own_slot(node: &Node, j: usize) {
                 }
             }
         } else {
-            lib(|| Rc::clone(&s[j].h))
+            lib(|| clone_it(&s[j].h))
         }
     };
     if certain_dead {
